@@ -105,6 +105,7 @@ class SubRun:
 
     def __init__(self, parent, pid, keep=None):
         self.parent, self.prefix, self.keep = parent, pid + "/", keep
+        self.chain = list(getattr(parent, "chain", [parent.pid])) + [pid]
         self.pid = parent.pid
         self.tier, self.seed = parent.tier, parent.seed
         self.rules = _PrefixedRules(parent.rules, self.prefix)
@@ -155,9 +156,14 @@ class SubRun:
 def compose(R, pid, run, repo, keep=None, why=""):
     """Run the check of property `pid` inside the check of R.pid (which implies it, see `why`).  An analysis the composed check
     cannot complete leaves the composing check's own verdict in place; it is recorded, not raised."""
-    sub = SubRun(R, pid, keep)
+    chain = list(getattr(R, "chain", [R.pid]))
     info = R.extra.setdefault("composed", {}).setdefault(pid, {})
     info["why"] = why
+    if pid in chain or len(chain) >= 3:
+        # already part of this run (or nested deeply enough): not repeated
+        info["status"] = "not repeated here (already composed further up: " + " > ".join(chain) + ")"
+        return None
+    sub = SubRun(R, pid, keep)
     try:
         run(repo, sub)
         info["status"] = "decided"
